@@ -1,6 +1,7 @@
 """C10 - reuse of evaluators, storage and workspaces (structural part):
 no named piece of state survives a reuse boundary."""
 from .. import ast as A
+from .. import renderhandle as RH
 
 VM = "fidget-core/src/vm/mod.rs"
 JIT = "fidget-jit/src/lib.rs"
@@ -267,3 +268,6 @@ def run(ctx):
     ctx.guarded(r, r3_mmap)
     r = ctx.rule("R4", "pointer lists are cleared before each refill; scratch lanes refilled", 7)
     ctx.guarded(r, r4_pointer_lists)
+    r = ctx.rule("R5", "render handles: cache keyed by trace, tape caches per shape, recycle order child -> tapes -> shape", 15)
+    ctx.guarded(r, RH.r_cache_key)
+    ctx.guarded(r, RH.r_recycle)
